@@ -10,8 +10,7 @@
 \*   "S" blank, "!" "&" "Q" (double quote) "q" (single quote) "$" "#"
 \* events: Feed(c), NL (newline), DSplice (backslash-newline inside a preprocessor directive)
 \* Outside the model (exploration stops, `illf`): texts FScan calls ill-formed (unterminated literal,
-\*   literal continued without leading &, line that holds nothing but continuation markers, sentinel
-\*   inside a continued statement); `#` anywhere but as the first non-blank character of a line; quotes
+\*   literal continued without leading &, line that holds nothing but continuation markers); `#` anywhere but as the first non-blank character of a line; quotes
 \*   inside directives that span several lines and backslashes outside directives (the C cleaner's business:
 \*   MC_CLex); a quote on a one-line directive is ordinary.
 EXTENDS Naturals, Sequences, TLC
@@ -162,8 +161,7 @@ EndLine(spliced) ==
                     [] rph \in {"body", "bcmt"} -> rtext
                     [] OTHER -> FALSE
       amp2 == ramp \/ rpend
-      refIll == CASE rph = "sent" -> rcont
-                  [] rph \in {"body", "bcmt"} -> rbad \/ ~(rlq = "" \/ amp2) \/ ~rtext
+      refIll == CASE rph \in {"body", "bcmt"} -> rbad \/ ~(rlq = "" \/ amp2) \/ ~rtext
                   [] OTHER -> FALSE
       \* ---- implementation verdict
       fst2 == FEol(fst)
